@@ -229,3 +229,471 @@ def report(ctx, res, rule='R-C14-strip'):
               'adjacent / none / only, option on and off)'.format(n),
               '; '.join(bad[:3]), f.loc, semantic=True)
     return True
+
+
+# ------------------------------------------------- require() argument forms
+
+NODE_STUBS = ('FunctionCall', 'VarName', 'VarAttribute', 'FunctionArgs',
+              'ExpList', 'ExpValue', 'ExpBinOp', 'TableConstructor',
+              'FieldNamed', 'FieldExp', 'StatFunction', 'StatAssignment',
+              'FunctionName', 'Chunk')
+
+
+def _stubs(cxi):
+    node = CX.StubClass('Node')
+    stubs = {n: CX.StubClass(n, (node,)) for n in NODE_STUBS}
+    for n, c in stubs.items():
+        cxi.module_vars[(PARSER, n)] = c
+    cxi.module_vars[(PARSER, 'Node')] = node
+    return stubs
+
+
+def _mk(stubs, _kind, **attrs):
+    o = CX.Obj(stubs[_kind])
+    o.attrs.update(attrs)
+    o.attrs.setdefault('start_pos', 0)
+    o.attrs.setdefault('end_pos', 1)
+    return o
+
+
+class WalkerEval:
+    """RequireWalker._walk_FunctionCall on stand-in call nodes"""
+
+    def __init__(self, ctx):
+        self.ctx = ctx
+        self.model = ctx.model
+        self.cls = self.model.cls(B + ':RequireWalker')
+
+    def run(self, build):
+        """build(cxi, stubs, tok) -> FunctionCall node;
+        -> ('yield', [items]) | ('raise', exception type name)"""
+        cxi = CX.Cx(self.model, self.ctx.consts)
+        stubs = _stubs(cxi)
+        lex = 'pico8.lua.lexer:'
+
+        def tok(kind, data):
+            return cxi.call(CX.ClassVal(self.model.cls(lex + kind)),
+                            [data], {})
+        marker = CX.Opaque('token of the call')
+        cxi.hooks = {
+            'pico8.lua.lua:_default_node_handler':
+                lambda c, a, k, bound=None: ['<delegated to the default '
+                                             'handler>'],
+        }
+
+        def go():
+            node = build(cxi, stubs, tok)
+            w = CX.Obj(self.cls)
+            w.attrs['_tokens'] = [marker]
+            w.attrs['_root'] = None
+            w.attrs['_args'] = {}
+            r = cxi.call(cxi.getattr(w, '_walk_FunctionCall'), [node], {})
+            return list(cxi.items(r))
+        paths = cxi.explore(go)
+        if len(paths) != 1 or paths[0][0]:
+            raise CX.CxError('the walker forks on opaque contents')
+        kind, val = paths[0][1]
+        if kind == 'raise':
+            return ('raise', val.tname), marker
+        return ('yield', val), marker
+
+
+def _call(stubs, tok, prefix, exps):
+    args = _mk(stubs, 'FunctionArgs', explist=(
+        _mk(stubs, 'ExpList', exps=list(exps)) if exps is not None
+        else None))
+    return _mk(stubs, 'FunctionCall', exp_prefix=prefix, args=args)
+
+
+def _req(stubs, tok):
+    return _mk(stubs, 'VarName', name=tok('TokName', b'require'))
+
+
+def _s(stubs, tok, data=b'pkg'):
+    return _mk(stubs, 'ExpValue', value=tok('TokString', data))
+
+
+def _opt(stubs, tok, key=b'use_game_loop', val=True, n=1):
+    fields = [_mk(stubs, 'FieldNamed', key_name=tok('TokName', key),
+                  exp=_mk(stubs, 'ExpValue', value=val)) for _ in range(n)]
+    return _mk(stubs, 'ExpValue',
+               value=_mk(stubs, 'TableConstructor', fields=fields))
+
+
+WALKER_CASES = [
+    # (description, builder, expected)
+    ('require("pkg")',
+     lambda c, st, t: _call(st, t, _req(st, t), [_s(st, t)]),
+     ('req', b'pkg', False)),
+    ('require("pkg", {use_game_loop=true})',
+     lambda c, st, t: _call(st, t, _req(st, t), [_s(st, t), _opt(st, t)]),
+     ('req', b'pkg', True)),
+    ('require("pkg", {use_game_loop=false})',
+     lambda c, st, t: _call(st, t, _req(st, t),
+                            [_s(st, t), _opt(st, t, val=False)]),
+     ('req', b'pkg', False)),
+    ('require("dir/sub.mod")',
+     lambda c, st, t: _call(st, t, _req(st, t), [_s(st, t, b'dir/sub.mod')]),
+     ('req', b'dir/sub.mod', False)),
+    ('require()',
+     lambda c, st, t: _call(st, t, _req(st, t), None), ('error',)),
+    ('require("a", {use_game_loop=true}, 3)',
+     lambda c, st, t: _call(st, t, _req(st, t),
+                            [_s(st, t), _opt(st, t), _s(st, t)]),
+     ('error',)),
+    ('require(name) -- not a literal',
+     lambda c, st, t: _call(st, t, _req(st, t), [
+         _mk(st, 'ExpValue', value=_mk(st, 'VarName',
+                                       name=t('TokName', b'name')))]),
+     ('error',)),
+    ('require("a".."b")',
+     lambda c, st, t: _call(st, t, _req(st, t), [_mk(st, 'ExpBinOp')]),
+     ('error',)),
+    ('require(12)',
+     lambda c, st, t: _call(st, t, _req(st, t), [
+         _mk(st, 'ExpValue', value=t('TokNumber', b'12'))]),
+     ('error',)),
+    ('require("a", "b")',
+     lambda c, st, t: _call(st, t, _req(st, t), [_s(st, t), _s(st, t)]),
+     ('error',)),
+    ('require("a", {})',
+     lambda c, st, t: _call(st, t, _req(st, t),
+                            [_s(st, t), _opt(st, t, n=0)]), ('error',)),
+    ('require("a", {use_game_loop=true, use_game_loop=true})',
+     lambda c, st, t: _call(st, t, _req(st, t),
+                            [_s(st, t), _opt(st, t, n=2)]), ('error',)),
+    ('require("a", {other=true})',
+     lambda c, st, t: _call(st, t, _req(st, t),
+                            [_s(st, t), _opt(st, t, key=b'other')]),
+     ('error',)),
+    ('require("a", {use_game_loop=1})',
+     lambda c, st, t: _call(st, t, _req(st, t),
+                            [_s(st, t), _opt(st, t, val=1.0)]), ('error',)),
+    ('require("a", {use_game_loop=nil})',
+     lambda c, st, t: _call(st, t, _req(st, t),
+                            [_s(st, t), _opt(st, t, val=None)]), ('error',)),
+    ('foo("pkg") -- another function',
+     lambda c, st, t: _call(st, t, _mk(st, 'VarName',
+                                       name=t('TokName', b'foo')),
+                            [_s(st, t)]), ('delegate',)),
+    ('t.require("pkg") -- a field, not the global',
+     lambda c, st, t: _call(st, t, _mk(st, 'VarAttribute'), [_s(st, t)]),
+     ('delegate',)),
+]
+
+
+def report_walker(ctx, res, rule='R-C14-errors'):
+    q = B + ':RequireWalker._walk_FunctionCall'
+    try:
+        f = ctx.model.func(q)
+        ev = WalkerEval(ctx)
+    except Exception as e:
+        res.vanished(rule, q, 'require finder', str(e)[:80])
+        return False
+    bad = []
+    n = 0
+    try:
+        for (what, build, want) in WALKER_CASES:
+            (kind, val), marker = ev.run(build)
+            n += 1
+            if want[0] == 'error':
+                if not (kind == 'raise' and val == 'LuaBuildError'):
+                    bad.append('`{}` is not refused with LuaBuildError: {}'
+                               .format(what, val if kind == 'raise' else
+                                       'yields {}'.format(len(val))))
+            elif want[0] == 'delegate':
+                if not (kind == 'yield' and val ==
+                        ['<delegated to the default handler>']):
+                    bad.append('`{}` is not handed to the default handler '
+                               '({} {})'.format(what, kind, val))
+            else:
+                ok = kind == 'yield' and len(val) == 1
+                if ok:
+                    item = ev_items(val[0])
+                    ok = len(item) == 3 and _as_bytes(item[0]) == want[1] \
+                        and item[1] is want[2] and item[2] is marker
+                if not ok:
+                    bad.append('`{}` does not yield ({!r}, {}, <its token>): '
+                               '{} {}'.format(what, want[1], want[2], kind,
+                                              _show(val)))
+    except AnalysisError as e:
+        res.info(rule, q, 'require() argument forms evaluated',
+                 'not followed: ' + str(e)[:140], f.loc)
+        return False
+    res.check(not bad, rule, q,
+              'require() argument forms: name and option are taken from the '
+              'literal arguments, every other form is refused (evaluated)',
+              '{} call shapes on stand-in nodes'.format(n),
+              '; '.join(bad[:3]) + (' (+{} more)'.format(len(bad) - 3)
+                                    if len(bad) > 3 else ''), f.loc,
+              semantic=True)
+    return True
+
+
+def ev_items(v):
+    if isinstance(v, (tuple, list)):
+        return list(v)
+    if isinstance(v, CX.Seq):
+        return list(v.items)
+    return [v]
+
+
+def _as_bytes(v):
+    if isinstance(v, CX.Seq):
+        try:
+            return bytes(v.items)
+        except (TypeError, ValueError):
+            return None
+    return v if isinstance(v, (bytes, bytearray)) else None
+
+
+def _show(v):
+    return repr(v)[:80]
+
+
+# ------------------------------------------------------ loader + packages
+
+def report_prepend(ctx, res, rule='R-C14-splice'):
+    """_prepend_package_lua on stand-in packages: the text handed to the
+    parser is  package table line / per package: opener with the (quote-
+    escaped) name, the package's lines, a newline if the last line lacks one,
+    `end` / the require function / the main program's lines."""
+    from ..refs import loader as REF
+    q = B + ':_prepend_package_lua'
+    try:
+        f = ctx.model.func(q)
+    except Exception as e:
+        res.vanished(rule, q, 'loader assembly', str(e)[:80])
+        return False
+    cxi = CX.Cx(ctx.model, ctx.consts)
+    holder = {}
+
+    def from_lines(cx, a, k, bound=None):
+        holder['lines'] = a[0] if a else k.get('lines')
+        return CX.Opaque('Lua(assembled)')
+    cxi.hooks = {'pico8.lua.lua:Lua.from_lines': from_lines}
+
+    def lua_of(lines):
+        return CX.Opaque('Lua', {'to_lines': lambda c, a, k: list(lines)})
+    main = lua_of([b'x=1\n', b'print(x)'])
+    pkgs = {b'pkg': lua_of([b'p=1\n', b'return p']),
+            b'q"x': lua_of([b'q=2\n']),
+            b'dir/empty': lua_of([])}
+    try:
+        paths = cxi.explore(lambda: cxi.call_function(f, [main, pkgs], {}))
+        if len(paths) != 1 or paths[0][0]:
+            raise CX.CxError('the assembly forks')
+        kind, val = paths[0][1]
+        if kind == 'raise':
+            if val.tname in ('NameError', 'UnboundLocalError', 'TypeError',
+                             'IndexError', 'KeyError', 'ValueError'):
+                res.violation(
+                    rule, q, 'assembled cart text = package table, one '
+                    'closed function per package under its quoted name, the '
+                    'require function, the main program (evaluated)',
+                    'assembling a cart with three ordinary packages raises '
+                    '{}{}: every build that uses require() fails'.format(
+                        val.tname, tuple(str(a)[:60] for a in val.args_)),
+                    f.loc, semantic=True)
+                return True
+            raise CX.CxError('raises ' + val.tname)
+        text = b''
+        for ln in cxi.items(holder.get('lines', [])):
+            b = _as_bytes(ln)
+            if b is None:
+                raise CX.CxError('assembled line is ' + type(ln).__name__)
+            text += bytes(b)
+        # no packages: the original object comes back, nothing is re-parsed
+        holder.clear()
+        paths2 = cxi.explore(lambda: cxi.call_function(f, [main, {}], {}))
+        same = len(paths2) == 1 and paths2[0][1][0] == 'ok' and \
+            paths2[0][1][1] is main and 'lines' not in holder
+    except AnalysisError as e:
+        res.info(rule, q, 'loader assembly evaluated',
+                 'not followed: ' + str(e)[:140], f.loc)
+        return False
+    want_pk = b''
+    for name, lines in ((b'pkg', b'p=1\nreturn p\n'), (b'q\\"x', b'q=2\n'),
+                        (b'dir/empty', None)):
+        want_pk += b'package._c["' + name + b'"]=function()\n'
+        if lines is None:
+            # an empty package: the opener line already ends in a newline
+            pass
+        else:
+            want_pk += lines
+        want_pk += b'end\n'
+    head, tail = REF.PACKAGE_TABLE, REF.REQUIRE_FUNCTION
+    want = head + want_pk + tail + b'x=1\nprint(x)'
+    if text == want:
+        res.holds(rule, q, 'assembled cart text = package table, one closed '
+                  'function per package under its quoted name, the require '
+                  'function, the main program (evaluated)',
+                  '3 stand-in packages (no final newline, a quote in the '
+                  'name, empty)', f.loc)
+    elif text.startswith(head) and text.endswith(tail + b'x=1\nprint(x)') \
+            and text[len(head):len(text) - len(tail) - 12] != want_pk:
+        got = text[len(head):len(text) - len(tail) - 12]
+        res.violation(rule, q, 'assembled cart text = package table, one '
+                      'closed function per package under its quoted name, '
+                      'the require function, the main program (evaluated)',
+                      'the package part is {!r} instead of {!r}'.format(
+                          got[:160], want_pk[:160]), f.loc, semantic=True)
+    elif want_pk in text and text.endswith(b'x=1\nprint(x)') and \
+            text.index(want_pk) > 0:
+        # packages and main program in place; the loader's own Lua text is
+        # not the reference text: its meaning is not decided here
+        res.undecided(rule, q, 'loader text',
+                      'packages and main program are assembled as specified '
+                      'but the loader Lua around them differs from the '
+                      'reference text; whether it still defines '
+                      'package._c / require(p) equivalently is not decided',
+                      f.loc)
+    else:
+        res.violation(rule, q, 'assembled cart text = package table, one '
+                      'closed function per package under its quoted name, '
+                      'the require function, the main program (evaluated)',
+                      'assembled text is {!r}... instead of {!r}...'.format(
+                          text[:120], want[:120]), f.loc, semantic=True)
+    res.check(same, rule, q, 'without packages the program is returned as it '
+              'is (evaluated)', '', 'a cart without require() is re-assembled '
+              'or replaced', f.loc, semantic=True)
+    return True
+
+
+def report_graph(ctx, res, rule='R-C14-once'):
+    """_evaluate_require on package graphs (shared package, chain, cycle,
+    repeated require): every distinct name is located, opened and parsed
+    once and stored under its name; bad names and missing files are
+    refused."""
+    q = B + ':_evaluate_require'
+    try:
+        f = ctx.model.func(q)
+    except Exception as e:
+        res.vanished(rule, q, 'package loading', str(e)[:80])
+        return False
+    GRAPHS = {
+        'repeated require': {'main': [b'a', b'a'], b'a': []},
+        'shared package': {'main': [b'a', b'b'], b'a': [b'c'], b'b': [b'c'],
+                           b'c': []},
+        'chain': {'main': [b'a'], b'a': [b'b'], b'b': [b'c'], b'c': []},
+        'cycle': {'main': [b'a'], b'a': [b'b'], b'b': [b'a']},
+    }
+    bad = []
+    n = 0
+    try:
+        for gname, graph in GRAPHS.items():
+            r = _run_graph(ctx, f, graph)
+            n += 1
+            names = sorted(k for k in graph if k != 'main')
+            if r['rc'] != 'ok':
+                bad.append('{}: {}'.format(gname, r['rc']))
+                continue
+            if sorted(r['stored']) != names:
+                bad.append('{}: packages stored {} instead of {}'.format(
+                    gname, sorted(r['stored']), names))
+            for nm in names:
+                if r['parsed'].count(nm) != 1:
+                    bad.append('{}: package {!r} is parsed {} times'.format(
+                        gname, nm, r['parsed'].count(nm)))
+                elif r['stored'].get(nm) != nm:
+                    bad.append('{}: name {!r} holds the package parsed from '
+                               '{!r}'.format(gname, nm, r['stored'].get(nm)))
+        for (what, graph, missing) in (
+                ('require("./x")', {'main': [b'./x'], b'./x': []}, ()),
+                ('require("../x")', {'main': [b'../x'], b'../x': []}, ()),
+                ('require("/abs")', {'main': [b'/abs'], b'/abs': []}, ()),
+                ('a file that cannot be found', {'main': [b'gone']},
+                 (b'gone',))):
+            r = _run_graph(ctx, f, graph, missing)
+            n += 1
+            if r['rc'] != 'raise LuaBuildError' or r['parsed']:
+                bad.append('{}: {} (files parsed: {})'.format(
+                    what, r['rc'], r['parsed']))
+    except AnalysisError as e:
+        res.info(rule, q, 'package graphs evaluated',
+                 'not followed: ' + str(e)[:140], f.loc)
+        return False
+    res.check(not bad, rule, q,
+              'every distinct required name is located, parsed and stored '
+              'once; cycles end; bad names and missing files are refused '
+              '(evaluated)',
+              '{} graphs / error cases on stand-in files'.format(n),
+              '; '.join(bad[:3]), f.loc, semantic=True)
+    return True
+
+
+def _run_graph(ctx, f, graph, missing=()):
+    cxi = CX.Cx(ctx.model, ctx.consts)
+    _stubs(cxi)
+    luas = {}
+    by_tokens = {}
+    rec = {'parsed': [], 'located': []}
+
+    def lua_for(name):
+        toks = [CX.Opaque('token of {!r}'.format(name))]
+        o = CX.Opaque('Lua({!r})'.format(name), attrs={
+            'tokens': toks, '_tokens': toks,
+            'root': CX.Opaque('Chunk', attrs={'stats': []})})
+        o.attrs['_root'] = o.attrs['root']
+        by_tokens[id(toks)] = name
+        luas[name] = o
+        return o
+    main = lua_for('main')
+    current = {}
+
+    def locate(cx, a, k, bound=None):
+        nm = a[0]
+        key = nm.encode('utf-8') if isinstance(nm, str) else nm
+        rec['located'].append(key)
+        if key in missing:
+            return None
+        return '/t/' + (nm if isinstance(nm, str) else nm.decode())
+
+    def opn(cx, a, k):
+        path = a[0]
+        fo = CX.Opaque('file', {'read': lambda c, a2, k2: b'',
+                                'close': lambda c, a2, k2: None},
+                       attrs={'path': path})
+        fo.methods['__enter__'] = lambda c, a2, k2: fo
+        fo.methods['__exit__'] = lambda c, a2, k2: None
+        return fo
+
+    def from_lines(cx, a, k, bound=None):
+        src = a[0] if a else k.get('lines')
+        if isinstance(src, CX.Opaque) and src.name == 'file':
+            name = src.attrs['path'][3:].encode('utf-8')
+            rec['parsed'].append(name)
+            return lua_for(name)
+        raise CX.CxError('unexpected re-parse')
+
+    def walk(cx, a, k, bound=None):
+        toks = bound.attrs.get('_tokens') if isinstance(bound, CX.Obj) \
+            else None
+        name = by_tokens.get(id(toks))
+        if name is None:
+            raise CX.CxError('walker over an unknown token list')
+        return [(r, True, CX.Opaque('require token'))
+                for r in graph.get(name, [])]
+    cxi.ext_hooks = {'open': opn}
+    cxi.hooks = {
+        'pico8.lua.lua:Lua.from_lines': from_lines,
+        B + ':_locate_require_file': locate,
+        'pico8.lua.lua:BaseASTWalker.walk': walk,
+        B + ':RequireWalker.walk': walk,
+    }
+    pkgs = {}
+    paths = cxi.explore(lambda: cxi.call_function(
+        f, [main, '/t/main.lua', pkgs], {}))
+    if len(paths) != 1 or paths[0][0]:
+        raise CX.CxError('package loading forks')
+    kind, val = paths[0][1]
+    rec['rc'] = 'ok' if kind == 'ok' else 'raise ' + val.tname
+    stored = {}
+    for k2, v in pkgs.items():
+        nm = None
+        for n2, o in luas.items():
+            if o is v:
+                nm = n2
+        stored[k2] = nm
+    rec['stored'] = stored
+    return rec
